@@ -760,6 +760,20 @@ def r4(chk, repo):
             "$f.add_done_callback($cb)", f) if isinstance(
                 c.args[0], ast.Lambda) and match(
                     "self.wait_futures.pop($k)", c.args[0].body) is not None]
+    if not cbs:
+        # partial(self.<method>, index): the method pops its first argument
+        ci_ = repo.enclosing_class(f)
+        for c, b_ in find("$f.add_done_callback($cb)", f):
+            cb = b_["cb"]
+            if isinstance(cb, ast.Call) and (dotted(cb.func) or "").split(
+                    ".")[-1] == "partial" and len(cb.args) == 2 and \
+                    isinstance(cb.args[0], ast.Attribute) and unparse(
+                        cb.args[0].value) == "self" and ci_ is not None:
+                _, m_ = repo.lookup(ci_, cb.args[0].attr)
+                if isinstance(m_, FUNC) and len(param_names(m_)) >= 2 and \
+                        find(f"self.wait_futures.pop({param_names(m_)[1]}, "
+                             f"$*d)", m_):
+                    cbs.append((c, {"k": cb.args[1]}))
     ok = len(cbs) == 1 and unparse(cbs[0][1]["k"]) == iname
     chk.ob(rule, sym, "done-callback removes the same index", ok, f,
            "the entry is removed under the index it was inserted with")
